@@ -28,6 +28,9 @@ type callOutcome struct {
 }
 
 func payloadOfV4(p *dhcpv4.DHCPv4) byte {
+	if p == nil {
+		return 0xfe // a matcher was handed no packet at all (a closed channel read as a datagram)
+	}
 	if v := p.Options.Get(dhcpv4.GenericOptionCode(224)); len(v) == 1 {
 		return v[0]
 	}
@@ -165,6 +168,9 @@ func routeScenario(v6 bool, xids, ths []byte, evs [][]byte) []callOutcome {
 }
 
 func payloadOfV6(m *dhcpv6.Message) byte {
+	if m == nil {
+		return 0xfe // a matcher was handed no message at all (a closed channel read as a datagram)
+	}
 	if o := m.GetOneOption(dhcpv6.OptionCode(4000)); o != nil {
 		if g, ok := o.(*dhcpv6.OptionGeneric); ok && len(g.OptionData) == 1 {
 			return g.OptionData[0]
@@ -292,7 +298,7 @@ func genC10(r *Run) {
 	// for the old call races with the new call's registration)
 	for _, v6 := range []bool{false, true} {
 		for k := 0; k < r.N(60, 1500); k++ {
-			a, b := reuseAfterFullBuffer(v6)
+			a, b := reuseAfterFullBufferMode(v6, k%2 == 1)
 			evals++
 			if k < 3 {
 				r.Add(map[bool]int{false: 76, true: 77}[v6], []byte{10, 11, 12, 13, 14, 15, 16}, []byte{99})
@@ -531,8 +537,12 @@ func checkOverflow(r *Run, v6 bool, n, acceptFrom, procs int) {
 // reuseAfterFullBuffer: call A's buffer is full and the receive loop is parked on one more datagram for it when A
 // returns; a new call B then takes the same transaction id at once.  B is a call like any other: it must be
 // registered (its own answer reaches it), whatever the loop still does on behalf of A.
-func reuseAfterFullBuffer(v6 bool) (a, b callOutcome) {
-	bubbleNote = fmt.Sprintf("v6=%v: id reused at once after a call that returned with a full buffer and a parked datagram", v6)
+func reuseAfterFullBuffer(v6 bool) (a, b callOutcome) { return reuseAfterFullBufferMode(v6, false) }
+
+// concurrent: B is started while A has not returned yet, so that it is already queued on the registry lock (held by
+// the parked receive loop) when A returns and the loop lets go
+func reuseAfterFullBufferMode(v6, concurrent bool) (a, b callOutcome) {
+	bubbleNote = fmt.Sprintf("v6=%v concurrent=%v: id reused at once after a call that returned with a full buffer and a parked datagram", v6, concurrent)
 	runBubble(func(t *testing.T) {
 		conn := newLabConn()
 		gate := make(chan struct{})
@@ -548,6 +558,8 @@ func reuseAfterFullBuffer(v6 bool) (a, b callOutcome) {
 			}
 		}
 		done := make(chan struct{})
+		startB := make(chan struct{})
+		var both sync.WaitGroup
 		var closer func()
 		mk := func(p byte) []byte {
 			if v6 {
@@ -566,29 +578,49 @@ func reuseAfterFullBuffer(v6 bool) (a, b callOutcome) {
 				t.Fatal(err)
 			}
 			closer = func() { c.Close() }
+			req := &dhcpv6.Message{MessageType: dhcpv6.MessageTypeSolicit, TransactionID: dhcpv6.TransactionID{0, 0, 7}}
+			callB := func() {
+				resp, err := c.SendAndRead(context.Background(), nclient6.AllDHCPRelayAgentsAndServers, req, func(m *dhcpv6.Message) bool { return payloadOfV6(m) == 99 })
+				b = classify6(resp, err)
+			}
+			both.Add(1)
 			go func() {
-				defer close(done)
-				req := &dhcpv6.Message{MessageType: dhcpv6.MessageTypeSolicit, TransactionID: dhcpv6.TransactionID{0, 0, 7}}
+				defer both.Done()
 				resp, err := c.SendAndRead(context.Background(), nclient6.AllDHCPRelayAgentsAndServers, req, func(m *dhcpv6.Message) bool { hold(); return true })
 				a = classify6(resp, err)
-				resp, err = c.SendAndRead(context.Background(), nclient6.AllDHCPRelayAgentsAndServers, req, func(m *dhcpv6.Message) bool { return payloadOfV6(m) == 99 })
-				b = classify6(resp, err)
+				if !concurrent {
+					callB()
+				}
 			}()
+			if concurrent {
+				both.Add(1)
+				go func() { defer both.Done(); <-startB; callB() }()
+			}
 		} else {
 			c, err := nclient4.NewWithConn(conn, labHW, nclient4.WithTimeout(time.Hour), nclient4.WithRetry(1))
 			if err != nil {
 				t.Fatal(err)
 			}
 			closer = func() { c.Close() }
+			req, _ := dhcpv4.NewDiscovery(labHW, dhcpv4.WithTransactionID(dhcpv4.TransactionID{0, 0, 0, 7}))
+			dst := &net.UDPAddr{IP: net.IPv4bcast, Port: 67}
+			callB := func() {
+				resp, err := c.SendAndRead(context.Background(), dst, req, func(p *dhcpv4.DHCPv4) bool { return payloadOfV4(p) == 99 })
+				b = classify4(resp, err)
+			}
+			both.Add(1)
 			go func() {
-				defer close(done)
-				req, _ := dhcpv4.NewDiscovery(labHW, dhcpv4.WithTransactionID(dhcpv4.TransactionID{0, 0, 0, 7}))
-				dst := &net.UDPAddr{IP: net.IPv4bcast, Port: 67}
+				defer both.Done()
 				resp, err := c.SendAndRead(context.Background(), dst, req, func(p *dhcpv4.DHCPv4) bool { hold(); return true })
 				a = classify4(resp, err)
-				resp, err = c.SendAndRead(context.Background(), dst, req, func(p *dhcpv4.DHCPv4) bool { return payloadOfV4(p) == 99 })
-				b = classify4(resp, err)
+				if !concurrent {
+					callB()
+				}
 			}()
+			if concurrent {
+				both.Add(1)
+				go func() { defer both.Done(); <-startB; callB() }()
+			}
 		}
 		synctest.Wait()
 		for i := 0; i < 7; i++ { // one in the matcher, five buffered, one the loop is parked on
@@ -597,6 +629,15 @@ func reuseAfterFullBuffer(v6 bool) (a, b callOutcome) {
 			case <-conn.closed:
 			}
 			synctest.Wait()
+		}
+		go func() { both.Wait(); close(done) }()
+		if concurrent {
+			// B goes for the registry lock now; the parked loop holds it, so B queues on it (a goroutine waiting
+			// for a mutex is not "durably blocked": no synctest.Wait until A is released)
+			close(startB)
+			for i := 0; i < 200; i++ {
+				runtime.Gosched()
+			}
 		}
 		close(gate) // A returns; B registers the same id straight away
 		synctest.Wait()
